@@ -33,6 +33,13 @@ func lengthPrefix[T constraints.Unsigned](n int) (T, error) {
 	return t, nil
 }
 
+// presize bounds the capacity reserved up front for a list whose claimed element count was read from the
+// wire: never more slots than there are unread bytes (append still grows the slice if elements turn out
+// to be empty), so a hostile count cannot make the decoder reserve memory for data that is not there.
+func presize(count int, buf *bytes.Buffer) int {
+	return min(count, buf.Len())
+}
+
 func WriteBasicType[T BasicType](buf *bytes.Buffer, v T) error {
 	return binary.Write(buf, binary.BigEndian, &v)
 }
@@ -94,7 +101,7 @@ func ReadBasicTypeList[T constraints.Unsigned, K BasicType](buf *bytes.Buffer) (
 	}
 	count := int(t)
 
-	result := make([]K, 0, count)
+	result := make([]K, 0, presize(count, buf))
 	var err error
 	for i := 0; i < count; i++ {
 		v, e := ReadBasicType[K](buf)
@@ -113,7 +120,7 @@ func ReadBasicTypeListLE[T constraints.Unsigned, K BasicType](buf *bytes.Buffer)
 	}
 	count := int(t)
 
-	result := make([]K, 0, count)
+	result := make([]K, 0, presize(count, buf))
 	var err error
 	for i := 0; i < count; i++ {
 		v, e := ReadBasicTypeLE[K](buf)
@@ -163,6 +170,10 @@ func ReadString[T constraints.Unsigned](buf *bytes.Buffer) (string, error) {
 		return "", err
 	}
 	length := int(t)
+	if length > buf.Len() {
+		// do not reserve memory for data that is not there
+		return "", io.ErrUnexpectedEOF
+	}
 
 	strBytes := make([]byte, length)
 	_, err := io.ReadFull(buf, strBytes)
@@ -175,6 +186,10 @@ func ReadStringLE[T constraints.Unsigned](buf *bytes.Buffer) (string, error) {
 		return "", err
 	}
 	length := int(t)
+	if length > buf.Len() {
+		// do not reserve memory for data that is not there
+		return "", io.ErrUnexpectedEOF
+	}
 
 	strBytes := make([]byte, length)
 	_, err := io.ReadFull(buf, strBytes)
@@ -294,7 +309,7 @@ func ReadFixedStringListTrimPadding[T constraints.Unsigned](buf *bytes.Buffer, f
 	}
 	count := int(t)
 
-	result := make([]string, 0, count)
+	result := make([]string, 0, presize(count, buf))
 	var err error
 	for i := 0; i < count; i++ {
 		str, e := ReadFixedStringTrimPadding(buf, fixedLen, padChar, padLeft)
@@ -317,7 +332,7 @@ func ReadFixedStringListTrimPaddingLE[T constraints.Unsigned](buf *bytes.Buffer,
 	}
 	count := int(t)
 
-	result := make([]string, 0, count)
+	result := make([]string, 0, presize(count, buf))
 	var err error
 	for i := 0; i < count; i++ {
 		str, e := ReadFixedStringTrimPadding(buf, fixedLen, padChar, padLeft)
@@ -390,13 +405,16 @@ func ReadStringListLE[T constraints.Unsigned, K constraints.Unsigned](buf *bytes
 	}
 	count := int(t)
 
-	result := make([]string, 0, count)
+	result := make([]string, 0, presize(count, buf))
 	for i := 0; i < count; i++ {
 		var k K
 		if err := binary.Read(buf, binary.LittleEndian, &k); err != nil {
 			return nil, err
 		}
 		length := int(k)
+		if length > buf.Len() {
+			return nil, errors.New("incomplete string bytes")
+		}
 
 		strBytes := make([]byte, length)
 		n, err := buf.Read(strBytes)
@@ -416,13 +434,16 @@ func ReadStringList[T constraints.Unsigned, K constraints.Unsigned](buf *bytes.B
 	}
 	count := int(t)
 
-	result := make([]string, 0, count)
+	result := make([]string, 0, presize(count, buf))
 	for i := 0; i < count; i++ {
 		var k K
 		if err := binary.Read(buf, binary.BigEndian, &k); err != nil {
 			return nil, err
 		}
 		length := int(k)
+		if length > buf.Len() {
+			return nil, errors.New("incomplete string bytes")
+		}
 
 		strBytes := make([]byte, length)
 		n, err := buf.Read(strBytes)
@@ -462,7 +483,7 @@ func ReadObjectList[T constraints.Unsigned, K BinaryCodec](buf *bytes.Buffer, ne
 	}
 	count := int(t)
 
-	result := make([]K, 0, count)
+	result := make([]K, 0, presize(count, buf))
 	for i := 0; i < count; i++ {
 		k := newFn()
 		if e := k.Decode(buf); e != nil {
@@ -500,7 +521,7 @@ func ReadObjectListLE[T constraints.Unsigned, K BinaryCodec](buf *bytes.Buffer, 
 	}
 	count := int(t)
 
-	result := make([]K, 0, count)
+	result := make([]K, 0, presize(count, buf))
 	for i := 0; i < count; i++ {
 		k := newFn()
 		if e := k.Decode(buf); e != nil {
